@@ -3,6 +3,7 @@ package props
 import (
 	"bytes"
 	"fmt"
+	"os"
 	"path"
 	"sort"
 	"strings"
@@ -37,6 +38,8 @@ type c15Model struct {
 	Tree        map[string]*mnode
 	Undefined   string // non-empty: the sequential reading is itself undefined here
 	Unsupported string // non-empty: an entry that cannot be represented
+	OverLink    string // non-empty: an entry re-uses the path of an earlier link (a refusal is not judged)
+	Root        *mnode // non-nil: the archive has a directory entry for its root
 }
 
 func c15Interpret(es []gen.TarEntry) c15Model {
@@ -71,7 +74,10 @@ func c15Interpret(es []gen.TarEntry) c15Model {
 				m.Undefined = "a non-directory entry names the archive root itself: " + e.String()
 				return m
 			}
-			continue // metadata of dst itself: not compared
+			// an explicit entry for the archive root prescribes the
+			// permission bits and time of dst itself (last one wins)
+			m.Root = &mnode{Kind: "dir", Perm: uint32(e.Mode) & 0777, Mtime: e.Mtime, MtimeNs: e.MtimeNs, Explicit: true}
+			continue
 		}
 		if rel == ".." || strings.HasPrefix(rel, "../") {
 			m.Undefined = "entry name leaves the archive root (not a well-formed slug; C01): " + e.String()
@@ -95,10 +101,13 @@ func c15Interpret(es []gen.TarEntry) c15Model {
 		}
 		ex := m.Tree[rel]
 		if ex != nil && ex.Kind == "link" {
-			// a symlink path re-used by a later entry: tar implementations
-			// differ (replace / follow / refuse); not judged
-			m.Undefined = "entry over existing link " + rel
-			return m
+			// a symlink path re-used by a later entry. "The last entry for
+			// a path wins": if Unpack accepts the archive, the link must be
+			// gone and the later entry in its place - never followed. An
+			// implementation that refuses such an archive is not judged.
+			m.OverLink = "entry over existing link " + rel
+			delete(m.Tree, rel)
+			ex = nil
 		}
 		if e.Type == "link" && e.Link == "" {
 			m.Undefined = "link entry without a target (no file system can hold it): " + e.String()
@@ -248,6 +257,10 @@ func c15Alphabet() []gen.TarEntry {
 		{Type: "xglobal", PAX: map[string]string{"comment": "global header", "VERIF.note": "x"}},
 		// header records are not extracted: neither a directory for their
 		// name nor a change to what another entry left under that name
+		// entries for the archive root itself, in three spellings
+		{Name: "./", Type: "dir", Mode: 0750, Mtime: 1580000000}, {Name: ".", Type: "dir", Mode: 0711, Mtime: 1570000000}, {Name: "/", Type: "dir", Mode: 0700, Mtime: 1560000000},
+		// entries that also record an access time (later than, and earlier than, the modification time)
+		{Name: "a", Type: "file", Mode: 0640, Body: "at", Atime: 1691539200}, {Name: "a/b", Type: "dir", Mode: 0750, Atime: 946684800},
 		{Name: "e/pax_global_header", Type: "xglobal", PAX: map[string]string{"comment": "y"}},
 		{Name: "a", Type: "xglobal", PAX: map[string]string{"comment": "z"}},
 	}
@@ -270,7 +283,17 @@ func c15Run(env *fw.Env, c c15Case) fw.Result {
 	}
 	res := fw.Result{Hash: fw.HashString(entriesKey(es) + c.Format + fmt.Sprint(env.Unpriv))}
 	res.Case = map[string]interface{}{"entries": entryStrings(es), "format": c.Format, "unprivileged": env.Unpriv}
-	data, err := gen.BuildTarGz(es, c.Format)
+	var data []byte
+	var err error
+	if c.Format == "members" {
+		var raw []byte
+		if raw, err = gen.BuildTar(es, ""); err == nil {
+			blocks := len(raw) / 512
+			data = gen.GzipMembers(raw, 512*(blocks/3), 512*(2*blocks/3))
+		}
+	} else {
+		data, err = gen.BuildTarGz(es, c.Format)
+	}
 	if err != nil {
 		res.Class = "unbuildable-archive"
 		return res
@@ -327,6 +350,10 @@ func c15Run(env *fw.Env, c c15Case) fw.Result {
 		}
 		return res
 	}
+	if uerr != nil && m.OverLink != "" {
+		res.Class = "entry-over-link:refused"
+		return res
+	}
 	if uerr != nil {
 		res.Class = "error"
 		// a conflict-free, representable sequence must unpack
@@ -339,7 +366,18 @@ func c15Run(env *fw.Env, c c15Case) fw.Result {
 	if err != nil {
 		return fw.Result{Verdict: fw.Inconclusive, Msg: "cannot read back dst: " + err.Error(), Case: res.Case}
 	}
-	if diffs := c15Compare(m, actual); len(diffs) > 0 {
+	diffs := c15Compare(m, actual)
+	if m.Root != nil {
+		if fi, err := os.Lstat(dst); err == nil {
+			if uint32(fi.Mode().Perm()) != m.Root.Perm {
+				diffs = append(diffs, fmt.Sprintf("(the destination itself): permission bits %o, the archive's root entry says %o", fi.Mode().Perm(), m.Root.Perm))
+			}
+			if sec := fi.ModTime().Unix(); sec != m.Root.Mtime && !(m.Root.MtimeNs >= 5e8 && sec == m.Root.Mtime+1) {
+				diffs = append(diffs, fmt.Sprintf("(the destination itself): mtime %d, the archive's root entry says %d", sec, m.Root.Mtime))
+			}
+		}
+	}
+	if len(diffs) > 0 {
 		res.Verdict = fw.Violated
 		res.Finding = c15Classify(diffs)
 		res.Msg = "destination differs from the sequential reading of the archive:\n  " + strings.Join(diffs, "\n  ")
@@ -368,7 +406,9 @@ func c15Classify(diffs []string) string {
 	return "wrong-kind"
 }
 
-var c15Formats = []string{"ustar", "pax", "gnu"}
+// tar formats; "members" = automatic format, the gzip stream cut into three
+// members at 512-byte block boundaries (one third and two thirds of the way)
+var c15Formats = []string{"ustar", "pax", "gnu", "members"}
 
 func c15RandomSeq(r *fw.Rand) c15Case {
 	alpha := c15Alphabet()
